@@ -48,11 +48,11 @@ STUB = ['application shell that keeps and saves the viewer list (modelled on glu
 ASSUMPTIONS = ['a user may remove a dataset\'s own layer alone (its subset layers then stay until the subsets disappear); subset layers are not removed one by one', 'oracle only at quiescence', 'sampling, not proof']
 PROBES = ['viewer_before_data', 'subset_created_after_add', 'group_removed_with_viewer', 'data_removed_with_viewer', 'viewer_dropped_unclosed',
           'viewer_closed', 'picker_filter_flip', 'picker_no_choices', 'picker_component_removed', 'picker_data_removed', 'image_axis_set',
-          'image_reference_changed', 'image_reference_removed', 'restart_with_viewers', 'readd_in_delay_window', 'mpl_viewer', 'explicit_selection', 'data_layer_removed_alone']
+          'image_reference_changed', 'image_reference_removed', 'restart_with_viewers', 'readd_in_delay_window', 'mpl_viewer', 'explicit_selection', 'data_layer_removed_alone', 'identifier_rebound_to_other_kind']
 
 PROBES_THOROUGH_ONLY = ['mpl_viewer']
 
-WEIGHTS = {'new': 2, 'append': 3, 'remove': 1.5, 'new_group': 2.5, 'remove_group': 1.5, 'add_comp': 1.5, 'add_derived': 1, 'remove_comp': 1,
+WEIGHTS = {'new': 2, 'append': 3, 'remove': 1.5, 'new_group': 2.5, 'remove_group': 1.5, 'add_comp': 1.5, 'add_derived': 1, 'remove_comp': 1, 'rebind_comp': 0.8,
            'rename': 0.7, 'reorder': 0.5, 'label': 0.5, 'v_new': 2, 'v_add': 4, 'v_add_subset': 1, 'v_remove': 1, 'v_remove_data_layer': 1, 'v_close': 0.5, 'v_drop': 0.5,
            'h_new': 2, 'h_append': 3, 'h_remove': 1, 'h_filter': 2, 'h_select': 1.5, 'h_drop': 0.4, 'i_new': 1, 'i_add': 2, 'i_remove': 0.7,
            'i_set': 4, 'delay_open': 1, 'delay_close': 1.5, 'collect': 0.5, 'restart': 0.4}
@@ -100,6 +100,8 @@ def generate(rng, cfg, guards):
             ops.append([k, r8(), r8(), rng.pick(sorted(LF.ONE))])
         elif k in ('remove_comp', 'rename'):
             ops.append([k, r8(), r8()])
+        elif k == 'rebind_comp':
+            ops.append([k, r8(), r8(), rng.randrange(10000)])
         elif k == 'reorder':
             ops.append([k, r8(), rng.randrange(1000)])
         elif k == 'v_new':
@@ -337,6 +339,24 @@ def _execute(case, res, tmp):
                     if any(any(d is g for g in h['data']) for h in helpers):
                         res.probe('picker_component_removed')
                     d.remove_component(c)
+                    mutated[0] = True
+            elif k == 'rebind_comp':
+                # the same identifier object is taken out and put back holding values of the other kind (numbers <-> text)
+                d = w.pick_data(op[1])
+                if d is not None:
+                    mains = list(d.main_components)
+                    c = mains[op[2] % len(mains)]
+                    if any(any(c is f for f in d.get_component(x).link.get_from_ids()) for x in d.derived_components):
+                        continue
+                    if d.get_kind(c) == 'numerical':
+                        if d.ndim != 1 or len([x for x in mains if d.get_kind(x) == 'numerical']) <= 1:
+                            continue
+                        vals = W.values(op[3], d.shape, 'cat')
+                    else:
+                        vals = W.values(op[3], d.shape)
+                    d.remove_component(c)
+                    d.add_component(vals, c)
+                    res.probe('identifier_rebound_to_other_kind')
                     mutated[0] = True
             elif k == 'rename':
                 d = w.pick_data(op[1])
